@@ -60,6 +60,10 @@ def run(rep):
     rep.guard(c12.h13, rep, w, 'C02')  # a hasher whose write() panics is a host panic for the first key that reaches it
     rep.guard(p12, rep, w)
     rep.guard(p13, rep, w)
+    import c06
+    rep.guard(c06.s4, rep, w)          # an upvalue left open past the end of its scope is a raw pointer into a dead stack slot: the open list stays ordered the way close_upvalues walks it
+    import c09
+    rep.guard(c09.f12, rep, w, 'C02')  # a fiber taken over for another run carries nothing of the earlier one: a left-over handler sends the next error into another script's bytecode (foreign constant table: host panic)
 
 
 def const_usize(o):
